@@ -15,7 +15,7 @@ import random
 from collections import deque
 
 (OP_HELLO, OP_WAIT, OP_SLEEP, OP_SOCKET, OP_BIND, OP_SEND, OP_RECV, OP_TUN_OPEN,
- OP_TUN_READ, OP_TUN_WRITE, OP_SYSTEM, OP_CLOSE) = range(1, 13)
+ OP_TUN_READ, OP_TUN_WRITE, OP_SYSTEM, OP_CLOSE, OP_CONNECT) = range(1, 14)
 
 AF_INET = socket.AF_INET
 AF_INET6 = socket.AF_INET6
@@ -53,7 +53,7 @@ class Stall(Exception):
 
 
 class VSock:
-    __slots__ = ("fd", "family", "port", "bound_ip", "queue")
+    __slots__ = ("fd", "family", "port", "bound_ip", "queue", "peer", "so_error")
 
     def __init__(self, fd, family):
         self.fd = fd
@@ -61,6 +61,8 @@ class VSock:
         self.port = None
         self.bound_ip = None
         self.queue = deque()
+        self.peer = None          # (ip, port) once connect()ed
+        self.so_error = 0         # pending asynchronous error of a connected socket (ICMP port unreachable: ECONNREFUSED)
 
 
 class Proc:
@@ -93,7 +95,7 @@ class Proc:
         self.spinning = False
 
     def alive(self):
-        return self.state in ("running", "wait", "sleep", "new")
+        return self.state in ("running", "wait", "sleep", "new", "recvblock")
 
 
 class Kernel:
@@ -381,6 +383,18 @@ class Kernel:
                 raw = msg[9:25]
                 data = bytes(msg[29:])
                 s = p.socks.get(fd)
+                if s is not None and s.so_error:
+                    # a connected socket with a pending ICMP error: the call reports it and does nothing else
+                    e_ = s.so_error
+                    s.so_error = 0
+                    self.emit("send_error", p.name, fd=fd, family=fam, errno=e_, n=len(data), data=data, cause=p.cause, pending_error=True)
+                    self._reply(p, struct.pack("<i", -e_))
+                    continue
+                if s is not None and fam == 0:
+                    if s.peer is None:
+                        self._reply(p, struct.pack("<i", -89))      # EDESTADDRREQ
+                        continue
+                    fam, port, raw = s.family, s.peer[1], ip_pack(s.peer[0]).ljust(16, b"\0")
                 if s is None or fam not in (AF_INET, AF_INET6) or fam != s.family:
                     # Linux: EAFNOSUPPORT when the address family does not match the socket's
                     if s is not None:
@@ -409,22 +423,51 @@ class Kernel:
                 src_ip = s.bound_ip or self._src_ip(p, fam, dst[0])
                 src = (src_ip, s.port)
                 self.emit("send", p.name, src=src, dst=dst, data=data, cause=p.cause)
-                self.transmit(src, dst, data)
+                if s.peer is not None and dst == s.peer and dst[0] in ("127.0.0.1", "::1") and not self._listening(dst):
+                    # loopback has no wire: the ICMP error is there before sendto() returns
+                    self.emit("noport", "net", src=src, dst=dst, n=len(data))
+                    s.so_error = 111
+                    self.emit("icmp_unreachable", p.name, fd=s.fd, dst=dst)
+                else:
+                    self.transmit(src, dst, data, origin=(p, s) if s.peer is not None else None)
                 self._reply(p, struct.pack("<i", len(data)))
+            elif op == OP_CONNECT:
+                fd, fam, port = struct.unpack_from("<iHH", msg, 1)
+                raw = msg[9:25]
+                s = p.socks.get(fd)
+                if s is None or fam != s.family:
+                    self._reply(p, struct.pack("<i", -97 if s else -9))
+                    continue
+                s.peer = (ip_unpack(fam, raw), port)
+                if s.port is None:
+                    s.port = p.next_port
+                    p.next_port += 1
+                if s.bound_ip is None:
+                    s.bound_ip = self._src_ip(p, fam, s.peer[0])
+                self.emit("connect", p.name, fd=fd, peer=s.peer)
+                self._reply(p, struct.pack("<i", 0))
             elif op == OP_RECV:
                 fd, cap = struct.unpack_from("<iI", msg, 1)
                 s = p.socks.get(fd)
-                if s is None or not s.queue:
-                    self._reply(p, struct.pack("<i", -EAGAIN if s else -9))
+                if s is None:
+                    self._reply(p, struct.pack("<i", -9))
                     continue
-                did, src, dst, data = s.queue.popleft()
-                p.cause = did
-                self.emit("recv", p.name, id=did, src=src, dst=dst, data=data)
-                mode, pat = p.residue
-                sf = ip_family(src[0])
-                df = ip_family(dst[0])
-                self._reply(p, struct.pack("<iHH16sH16sBH", len(data), sf, src[1], ip_pack(src[0]).ljust(16, b"\0"),
-                                           df, ip_pack(dst[0]).ljust(16, b"\0"), mode, len(pat)) + data + pat)
+                if s.so_error and not s.queue:
+                    e_ = s.so_error
+                    s.so_error = 0
+                    self.emit("recv_error", p.name, fd=fd, errno=e_)
+                    self._reply(p, struct.pack("<i", -e_))
+                    continue
+                if not s.queue:
+                    # the programs' sockets are blocking: a receive call on a socket that has nothing to deliver does not
+                    # return until a datagram arrives (for ever, if none does)
+                    p.state = "recvblock"
+                    p.block_fd = fd
+                    p.block_since = self.now
+                    p.gen += 1
+                    self.emit("recv_blocks", p.name, fd=fd)
+                    return
+                self._complete_recv(p, s)
             elif op == OP_TUN_OPEN:
                 fd = struct.unpack_from("<i", msg, 1)[0]
                 p.tun_fd = fd
@@ -492,9 +535,19 @@ class Kernel:
                     out.append(fd)
             else:
                 s = p.socks.get(fd)
-                if s is not None and s.queue:
+                if s is not None and (s.queue or s.so_error):
                     out.append(fd)
         return out
+
+    def _complete_recv(self, p, s):
+        did, src, dst, data = s.queue.popleft()
+        p.cause = did
+        self.emit("recv", p.name, id=did, src=src, dst=dst, data=data)
+        mode, pat = p.residue
+        sf = ip_family(src[0])
+        df = ip_family(dst[0])
+        self._reply(p, struct.pack("<iHH16sH16sBH", len(data), sf, src[1], ip_pack(src[0]).ljust(16, b"\0"),
+                                   df, ip_pack(dst[0]).ljust(16, b"\0"), mode, len(pat)) + data + pat)
 
     def kill(self, pname):
         """The process is ended from outside (power loss, kill -9, a restart by the init system); its addresses become free."""
@@ -523,6 +576,19 @@ class Kernel:
         p.frozen = True
         self.emit("freeze", pname)
 
+    def thaw(self, pname):
+        """A frozen process is scheduled again (it was busy / descheduled for a moment): whatever arrived meanwhile is waiting
+        in its socket queues, so its next select() reports several descriptors - and several datagrams - at once."""
+        p = self.procs[pname]
+        if not getattr(p, "frozen", False):
+            return
+        p.frozen = False
+        self.emit("thaw", pname)
+        if p.state in ("wait", "recvblock"):
+            self._poke(p)
+        if p.state in ("wait", "sleep") and p.deadline is not None:
+            self.at(max(p.deadline, self.now), self._wake, p, p.gen)
+
     def _wake(self, p, gen):
         if p.gen != gen or p.state not in ("wait", "sleep") or getattr(p, "frozen", False):
             return
@@ -536,6 +602,22 @@ class Kernel:
 
     def _poke(self, p):
         """Resume p if it is waiting on something that became readable."""
+        if p.state == "recvblock" and not getattr(p, "frozen", False):
+            s = p.socks.get(p.block_fd)
+            if s is not None and s.queue:
+                p.state = "running"
+                p.gen += 1
+                self._complete_recv(p, s)
+                self._service(p)
+            elif s is not None and s.so_error:
+                e_ = s.so_error
+                s.so_error = 0
+                p.state = "running"
+                p.gen += 1
+                self.emit("recv_error", p.name, fd=s.fd, errno=e_)
+                self._reply(p, struct.pack("<i", -e_))
+                self._service(p)
+            return
         if p.state != "wait" or getattr(p, "frozen", False):
             return
         ready = self._ready(p, p.wait_fds)
@@ -546,8 +628,8 @@ class Kernel:
             self._service(p)
 
     # --------------------------------------------------------------- network
-    def transmit(self, src, dst, data, delay_us=None):
-        """Put a datagram on the virtual wire."""
+    def transmit(self, src, dst, data, delay_us=None, origin=None):
+        """Put a datagram on the virtual wire.  origin = (process, connected socket) it was sent from: told when nobody listens."""
         if len(data) > 65507:
             self.emit("oversize", "net", src=src, dst=dst, n=len(data))     # cannot exist as a UDP datagram
             return
@@ -556,13 +638,36 @@ class Kernel:
             if delays is None:
                 delays = [self.latency_us]
             for d in delays:
-                self.after(max(1, d), self._deliver, src, dst, data)
+                self.after(max(1, d), self._deliver, src, dst, data, origin)
             if not delays:
                 self.emit("linkdrop", "net", src=src, dst=dst, n=len(data))
             return
-        self.after(max(1, self.latency_us if delay_us is None else delay_us), self._deliver, src, dst, data)
+        self.after(max(1, self.latency_us if delay_us is None else delay_us), self._deliver, src, dst, data, origin)
 
-    def _deliver(self, src, dst, data):
+    def _listening(self, dst):
+        ip, port = dst
+        for bp in self.procs.values():
+            if bp.alive():
+                for s in bp.socks.values():
+                    if s.port == port and (s.bound_ip == ip or (s.bound_ip is None and self.by_ip.get(ip) is bp and s.family == ip_family(ip))):
+                        return True
+        actor = self.actors.get(ip)
+        if actor is not None:
+            return not (getattr(actor, "port_closed", None) and actor.port_closed(port))
+        return False
+
+    def _unreachable(self, origin, dst):
+        """Nobody listens on dst: the host answers with ICMP port unreachable.  An unconnected UDP socket never hears of it; a
+        connected one gets a pending ECONNREFUSED (it polls readable, and its next send or receive call fails with it)."""
+        if origin is None:
+            return
+        op_, os_ = origin
+        if op_.alive() and os_.peer == dst:
+            os_.so_error = 111
+            self.emit("icmp_unreachable", op_.name, fd=os_.fd, dst=dst)
+            self._poke(op_)
+
+    def _deliver(self, src, dst, data, origin=None):
         self.dgram_id += 1
         did = self.dgram_id
         ip, port = dst
@@ -573,11 +678,19 @@ class Kernel:
                 continue
             for s in bp.socks.values():
                 if s.bound_ip == ip and s.port == port:
+                    if s.peer is not None and s.peer != src:
+                        self.emit("notpeer", "net", src=src, dst=dst, n=len(data))      # a connected socket hears its peer only
+                        return
                     s.queue.append((did, src, dst, data))
                     self.emit("deliver", bp.name, id=did, src=src, dst=dst, data=data, fd=s.fd)
                     self._poke(bp)
                     return
         actor = self.actors.get(ip)
+        if actor is not None and getattr(actor, "port_closed", None) and actor.port_closed(port):
+            # the host is there but nothing listens on that port at the moment (a daemon that is being restarted)
+            self.emit("noport", "net", src=src, dst=dst, n=len(data))
+            self._unreachable(origin, dst)
+            return
         if actor is not None:
             self.emit("deliver", "actor:" + ip, id=did, src=src, dst=dst, data=data)
             actor.on_datagram(src, dst, data)
@@ -594,6 +707,7 @@ class Kernel:
                 self._poke(p)
                 return
         self.emit("noport", "net", src=src, dst=dst, n=len(data))
+        self._unreachable(origin, dst)
 
     def offer_tun(self, pname, frame, fid=None):
         p = self.procs[pname]
